@@ -39,10 +39,6 @@ func (ex *Exec) callStd2(full string, fobj *types.Func, args []Value, e *ast.Cal
 	ex.unsupported("no model for %s at %s", full, ex.where(e))
 	return nil
 }
-func (ex *Exec) execLoopCut(s *ast.ForStmt, lc *LoopContract, ord int) ctl {
-	ex.unsupported("loop cut not implemented")
-	return ctlNone
-}
 
 // initGlobal evaluates the initialiser of a package-level variable (all callees inlined).
 func (ex *Exec) initGlobal(v *types.Var) *Obj {
